@@ -13,7 +13,10 @@ EXPLANATION = (
     "g(c), which cannot equal element total - 1 - m for all k - so the dependence is a necessary condition for 'mixing "
     "front and back yields each element once' (and for mutable iterators: each &mut at most once). Also: every "
     "ExactSizeIterator has a size_hint whose lower and upper bound are the same value, and every SplitIterator::split_at "
-    "either delegates or checks index <= len before stepping. Order, nth, fold and parallel-split equivalence over all "
+    "either delegates or checks index <= len before stepping. (chunks) AxisChunks / AxisChunksMut keep a remainder exactly "
+    "under size(axis) > 0 wherever that is decided (new, next, next_back, split_at), take size % chunk_size elements "
+    "from the back, and clamp the split position to the axis size. (carry-order) the offset odometer carries from the "
+    "innermost dimension outwards. Order, nth, fold and parallel-split equivalence over all "
     "layouts are value-level and not decided.")
 ASSUMPTIONS = ["std iterator adapters are correct"]
 DEI = 'core::iter::traits::double_ended::DoubleEndedIterator'
